@@ -295,7 +295,8 @@ class Gen:
         pre = ["Then", ["OrNot", self.leaf(True)], M]
         first = self.r.choice([
             lambda: ["Labelled", self.k(), self.r.randint(0, 1), pre],
-            lambda: ["Then", ["Not", pre], "Any"],
+            lambda: ["Then", ["Not", pre], self.r.choice(["Any", ["Just", self.toks(1, 1)], "End"])],
+            lambda: ["Then", ["Not", M], ["Just", self.toks(1, 1)]],
             lambda: ["TryMap", "PFalse", "FId", self.k(), pre],
             lambda: ["MapErr", self.k(), pre],
             lambda: ["Rewind", pre],
@@ -309,8 +310,9 @@ class Gen:
             sib = ["Then", body[1], ["Just", [other]]]
             second = self.r.choice([["Or", M, sib], ["Choice", [sib, M]], ["Or", ["Then", M, self.g(1)], sib]])
         c = self.r.random()
-        if c < 0.5: g = ["Or", first, second]
-        elif c < 0.8: g = ["Choice", [first, second, ["Then", M, M]]]
+        if c < 0.4: g = ["Or", first, second]
+        elif c < 0.6: g = ["Choice", [first, second, ["Then", M, M]]]
+        elif c < 0.8: g = ["IgnoreThen", ["Not", M], second]      # the lookahead discards the first visit's error; the second visit is a hit
         else: g = ["Then", ["OrNot", first], second]
         return g
 
